@@ -294,6 +294,21 @@ def expected_changes(model, real, pending, begin=None, end=None):
     return sorted(out, key=lambda x: x.encode())
 
 
+def touch_all(real):
+    """Rewrites every file of the working tree with the bytes it already has and gives it a different
+    modification time: the content is unchanged, only the stat data git caches in its index is stale."""
+    for root, dirs, files in os.walk(real.r.dir):
+        dirs[:] = [d for d in dirs if d not in (".git", "monorail-out", "var", "monorail")]
+        for f in files:
+            fp = os.path.join(root, f)
+            if f == "Monorail.json" or os.path.islink(fp):
+                continue
+            data = open(fp, "rb").read()
+            with open(fp, "wb") as fh:
+                fh.write(data)
+            os.utime(fp, (978307200, 978307200))
+
+
 def inv_c02(model, real, tier):
     v = []
     evals = 0
@@ -316,6 +331,8 @@ def inv_c02(model, real, tier):
         doc, res = analyze_changes(real, extra)
         evals += 1
         if doc is None:
+            if (b is None) != (e is None):
+                continue   # a one-sided interval that is refused outright is not covered by the statement
             v.append(("analyze-failed", "analyze --changes %s failed: %r" % (extra, res)))
             continue
         got = [c["path"] for c in doc.get("changes") or []]
@@ -335,6 +352,16 @@ def inv_c02(model, real, tier):
                 "%s..%s" % ("checkpoint" if b is None else "c%d" % b, "worktree" if e is None else "c%d" % e), got, want, missing, extra_p)))
         elif got != sorted(got, key=lambda x: x.encode()):
             v.append(("unsorted", "range %s: %s" % ((b, e), got)))
+    # the same content written again with another modification time is not a change
+    touch_all(real)
+    for (b, e) in [(None, None)] + [(i, None) for i in range(n)]:
+        extra = ([] if b is None else ["-b", real.commit_ids[b]])
+        doc, res = analyze_changes(real, extra)
+        evals += 1
+        got = None if doc is None else sorted({c["path"] for c in doc.get("changes") or []}, key=lambda x: x.encode())
+        want = expected_changes(model, real, pending, b, e)
+        if got != want:
+            v.append(("unchanged-content-reported", "range %s..worktree after every file was rewritten with the bytes it already had (new mtime): reported %s, expected %s" % ("checkpoint" if b is None else "c%d" % b, got, want)))
     return v, evals, observed
 
 
@@ -426,6 +453,11 @@ def inv_c07(model, real, ops, tier):
     if t != []:
         v.append(("targets-after-pending-update", "analyze right after `checkpoint update -p` reports %s" % (t,)))
     run_nothing("after update -p")
+    touch_all(real)
+    t = targets()
+    evals += 1
+    if t != []:
+        v.append(("unchanged-content-reflagged", "after update -p every file was rewritten with the bytes it already had (new mtime): analyze reports %s" % (t,)))
     evals += 1
     # later edits: each from this state, on the real repository, undone afterwards
     # change to content the file never had (a new content id per trial), creation of a file with
@@ -954,7 +986,7 @@ def state_task(task):
 
 
 RULES = {
-    "C02": "plus wholly untracked directories (5 places: inside a target, nested three deep, name with a space / non-ASCII, outside every target) whose files must be listed one by one; plus 9 sequences with surroundings outside the model (records of earlier successful / failed runs on disk, a log tail listener attached); plus an odd-file-name family (18 names: leading/trailing spaces, tab, newline, quote, backslash, non-ASCII, 200 characters, leading dash, glob characters), each untracked and tracked-modified; plus a many-pending-paths family (1..40 paths in quick, up to 600 in thorough, of mixed sizes, untracked / staged / modified / deleted at once); plus the size family of C07 judged on the reported change list (a pending file edited beyond a buffer/read boundary must be listed, restored content must be filtered); explicit-state BFS over operation sequences {write(p,c), delete(p), mv, git mv, add -A, commit, checkpoint update [-p] [--id k], checkpoint delete, out delete --all} on paths {a/f.txt, 'b/n e-acute.txt', b/m.txt}; state = (commits, index, worktree, checkpoint) with commit ids canonicalised to indices; each new state is materialised in a real repository (real git, real monorail) and, when a checkpoint exists, `analyze --changes` for the default range, every ordered pair of commits as --begin/--end, and every commit as --begin alone (.. working tree) and as --end alone (checkpoint ..) must equal the statement's set (content differs from base, plus untracked, minus pending-checksum matches), verbatim and sorted",
+    "C02": "plus wholly untracked directories (5 places: inside a target, nested three deep, name with a space / non-ASCII, outside every target) whose files must be listed one by one; plus 9 sequences with surroundings outside the model (records of earlier successful / failed runs on disk, a log tail listener attached); plus an odd-file-name family (18 names: leading/trailing spaces, tab, newline, quote, backslash, non-ASCII, 200 characters, leading dash, glob characters), each untracked and tracked-modified; plus a many-pending-paths family (1..40 paths in quick, up to 600 in thorough, of mixed sizes, untracked / staged / modified / deleted at once); plus the size family of C07 judged on the reported change list (a pending file edited beyond a buffer/read boundary must be listed, restored content must be filtered); explicit-state BFS over operation sequences {write(p,c), delete(p), mv, git mv, add -A, commit, checkpoint update [-p] [--id k], checkpoint delete, out delete --all} on paths {a/f.txt, 'b/n e-acute.txt', b/m.txt}; state = (commits, index, worktree, checkpoint) with commit ids canonicalised to indices; each new state is materialised in a real repository (real git, real monorail) and, when a checkpoint exists, `analyze --changes` for the default range, every ordered pair of commits as --begin/--end, and every commit as --begin alone (.. working tree) and as --end alone (checkpoint ..) must equal the statement's set, also after every file was rewritten with the bytes it already had and a new mtime (content differs from base, plus untracked, minus pending-checksum matches), verbatim and sorted",
     "C07": "plus wholly untracked directories (5 places) pending at update -p: a new file, a changed file and a new file in a subdirectory must each re-flag; plus 9 sequences with surroundings outside the model (records of earlier successful / failed runs on disk, a log tail listener attached); plus an odd-file-name family (18 names: leading/trailing spaces, tab, newline, quote, backslash, non-ASCII, 200 characters, leading dash, glob characters), each untracked and tracked-modified; plus a many-pending-paths family (1..40 paths in quick, up to 600 in thorough, of mixed sizes, untracked / staged / modified / deleted at once); plus the update-pair family of C19 judged on `analyze` after the second update -p; plus a size family: a pending file (untracked / modified / staged) of each size around the checksum buffer and read boundaries (65535..65537, 200000, 2 MiB+1; thorough more) must be clean after update -p and re-flagged by a one-byte edit at each boundary offset, an append and a truncation; same BFS; in every state reached by `checkpoint update -p`: analyze reports no targets and run starts nothing; then from that state every single later edit (fresh content for each path, new files, deletion of committed files; thorough: every pair) must re-flag exactly the targets of the edited paths, and a second update -p must clear them",
     "C19": "plus HEAD resolving to no commit (repository without commits; orphan branch after a real checkpoint): update must fail and leave the store as it was; plus 9 sequences with surroundings outside the model (records of earlier successful / failed runs on disk, a log tail listener attached); plus a many-pending-paths family (1..40 paths in quick, up to 600 in thorough, of mixed sizes, untracked / staged / modified / deleted at once); plus an update-pair family: worktree set to pending configuration S1 (each of a/f.txt, b/m.txt, a/g.txt absent or with one of two contents), `update -p`, worktree set to S2, second update (-p or plain) for every pair (S1,S2) (quick: at most two pending paths each): show must equal what the second update printed; same BFS; from every state (quick: every state whose last operation touched the store) a suffix probe update, update -p, delete: show follows each update and afterwards no checkpoint exists; in every state `checkpoint show` must equal what the last successful update printed (or fail when deleted / never set); updates must record HEAD or the given --id; without a checkpoint analyze reports checkpointed=false with every target and run covers every target",
     "C05": "plus 9 sequences with surroundings outside the model (records of earlier successful / failed runs on disk, a log tail listener attached); same BFS (part B of C05): in every state `analyze --target-groups` then `run -c build` in trace mode must agree on groups and started targets",
